@@ -225,6 +225,14 @@ def eval_edge(ctx, jobs, res):
                           f'(closed_b p\' && forallb (fun e => emem e (pedges p)) (pedges p\') && '
                           f'forallb (fun e => emem e (pedges p\') || emem e [({a}, {b}); ({b}, {a})]) (pedges p)) '
                           f'else polys_eqb [p] [p\'])'))
+    corr = []
+    for job, r in zip(jobs, res):
+        for st in r.get('steps', []):
+            corr.append((job['id'], f'chk_remove_edge {cpoly(st["before"])} {cz(st["a"])} {cz(st["b"])} '
+                         f'{"true" if st["ok"] else "false"} {cpoly(st["after"])}'))
+    lines.append('Goal True. idtac "@@ edgecorr". Abort.')
+    lines.append('Eval vm_compute in map fst (filter (fun c => negb (snd c)) ' +
+                 lib.coq_list([f'({cz(i)}, {e})' for i, e in corr]) + ').')
     lines.append('Goal True. idtac "@@ edge". Abort.')
     lines.append('Eval vm_compute in map fst (filter (fun c => negb (snd c)) ' +
                  lib.coq_list([f'({cz(i)}, {e})' for i, e in cases]) + ').')
@@ -235,6 +243,18 @@ def eval_edge(ctx, jobs, res):
                       'verified-oracle test of remove_one_edge_from_polyhedron', found_input=False,
                       signature={'check': 'edge', 'symptom': 'coq-eval-failed'})
         return
+    badc = failing(lib.parse_marked(out).get('edgecorr', '')) or []
+    ctx.corr['cases'] += len(corr)
+    ctx.corr['remove_one_edge_steps'] = len(corr)
+    ctx.corr['disagreements'] += len(badc)
+    for job, r in zip(jobs, res):
+        if job['id'] in set(badc):
+            ctx.violation('correspondence', {'jobs': {'edge': [job]}},
+                          'ModelEdge.remove_one_edge (same acceptance, same cell)',
+                          [{k: st[k] for k in ('a', 'b', 'ok', 'after')} for st in r.get('steps', [])][:4],
+                          'correspondence remove_one_edge_from_polyhedron ~ ModelEdge.remove_one_edge',
+                          signature={'check': 'edge-corr'},
+                          what='remove_one_edge_from_polyhedron disagrees with the model')
     ctx.notes['remove_one_edge_oracle'] = {'cells': len(jobs), 'steps': n_steps, 'accepted_by_impl': n_ok,
                                            'failed_cells': len(set(bad))}
     for job, r in zip(jobs, res):
